@@ -3,6 +3,7 @@ package main
 import (
 	"fmt"
 	"go/token"
+	"go/types"
 	"sort"
 	"strings"
 
@@ -265,6 +266,45 @@ func ruleCookieGate(c *Ctx, r *Report) {
 				}
 			}
 			if k < 0 {
+				// a copy or a reset: the value is a cookie taken from elsewhere (the peer's
+				// HelloVerifyRequest, another state) or nothing; anything else is a cookie that was
+				// computed, not drawn for this connection
+				var foreign ssa.Value
+				var look func(v ssa.Value, d int)
+				look = func(v ssa.Value, d int) {
+					if d > 4 {
+						foreign = v
+						return
+					}
+					for _, l := range c.Origins(v, 0) {
+						switch x := l.(type) {
+						case *ssa.Const, *ssa.Alloc, *ssa.MakeSlice:
+						case *ssa.Call:
+							nm := calleeName(&x.Call)
+							if nm == "builtin:append" || nm == "bytes.Clone" || strings.HasPrefix(nm, "slices.Clone") {
+								for _, a := range x.Call.Args {
+									look(a, d+1)
+								}
+							} else {
+								foreign = l
+							}
+						default:
+							if _, f, _, ok := fieldLoad(l); ok && (f == "Cookie" || strings.HasSuffix(f, "Cookie")) {
+								continue
+							}
+							if _, isPar := l.(*ssa.Parameter); isPar {
+								continue
+							}
+							foreign = l
+						}
+					}
+				}
+				look(st.Val, 0)
+				if foreign != nil {
+					n++
+					r.Bad(rule, "cookie<-"+short(st.Fn), c.ipos(st.Instr), "the cookie is neither fresh crypto/rand bytes drawn for this connection nor a copy of a cookie: it is computed from "+c.describe(foreign)+", so it is not tied to the connection (the peer address) that issued it - a cookie obtained from one address is accepted from any other")
+					continue
+				}
 				r.Note(rule, "cookie<-"+short(st.Fn), c.ipos(st.Instr), "copy / reset of the cookie (client side or clone), not a generation site")
 				continue
 			}
@@ -648,101 +688,195 @@ func ruleSecondHelloEqualsFirst(c *Ctx, r *Report) {
 		}
 		return true
 	}
-	// part(v) = (which snapshot parameter, which component) when v is a component of
-	// helloVerifyClientHelloParts(<param>)
-	part := func(v ssa.Value) (string, int) {
-		ex, ok := v.(*ssa.Extract)
-		if !ok {
-			return "", -1
+	// the splitter: a one-parameter function of the package that cuts the snapshot's raw body into
+	// the part in front of the cookie, the part behind it and the cookie. Its results (a tuple or
+	// the fields of a small struct) are classified by the slice expression that flows into them:
+	// body[:k] is "before", body[k:] or body[k:extensionOffset] is "after", body[a:b] the cookie.
+	type splitInfo struct {
+		role   map[int]string // result / field index -> role
+		okCut  bool
+		toEnd  bool
+		callee *ssa.Function
+	}
+	splitters := map[*ssa.Function]*splitInfo{}
+	isBody := func(l ssa.Value) bool {
+		return isFieldLoad(l, "internal/negotiation.ClientHelloSnapshot", "body")
+	}
+	analyse := func(callee *ssa.Function) *splitInfo {
+		if si, ok := splitters[callee]; ok {
+			return si
 		}
-		call, ok := ex.Tuple.(*ssa.Call)
-		if !ok || len(call.Call.Args) != 1 {
-			return "", -1
+		si := &splitInfo{role: map[int]string{}, okCut: true, callee: callee}
+		splitters[callee] = si
+		classify := func(idx int, v ssa.Value) {
+			v = unspill(v)
+			if isNilConst(v) {
+				return
+			}
+			var leaves []ssa.Value
+			seen := map[ssa.Value]bool{}
+			var expand func(x ssa.Value)
+			expand = func(x ssa.Value) {
+				x = unspill(x)
+				if seen[x] {
+					return
+				}
+				seen[x] = true
+				if phi, ok := x.(*ssa.Phi); ok {
+					for _, e := range phi.Edges {
+						expand(e)
+					}
+					return
+				}
+				leaves = append(leaves, x)
+			}
+			expand(v)
+			for _, l := range leaves {
+				if isNilConst(l) {
+					continue
+				}
+				sl, isSl := l.(*ssa.Slice)
+				if !isSl {
+					si.okCut = false
+					continue
+				}
+				root := sl.X
+				for {
+					inner, ok := root.(*ssa.Slice)
+					if !ok {
+						break
+					}
+					root = inner.X
+				}
+				bodyRoot := false
+				for _, rl := range append(c.Origins(root, 0), root) {
+					if isBody(rl) {
+						bodyRoot = true
+					}
+				}
+				if !bodyRoot {
+					si.okCut = false
+					continue
+				}
+				switch {
+				case sl.Low == nil && sl.High != nil:
+					si.role[idx] = "before"
+				case sl.Low != nil && sl.High == nil:
+					si.role[idx] = "after"
+					si.toEnd = true
+				case sl.Low != nil && sl.High != nil:
+					if _, f, _, ok := fieldLoad(stripConv(sl.High)); ok && f == "extensionOffset" {
+						si.role[idx] = "after"
+					} else {
+						si.role[idx] = "cookie"
+					}
+				}
+			}
+		}
+		res := callee.Signature.Results()
+		switch {
+		case res.Len() == 3:
+			for _, b := range callee.Blocks {
+				if ret, ok := b.Instrs[len(b.Instrs)-1].(*ssa.Return); ok && len(ret.Results) == 3 {
+					for i := 0; i < 3; i++ {
+						classify(i, ret.Results[i])
+					}
+				}
+			}
+		case res.Len() == 1:
+			if _, isStruct := res.At(0).Type().Underlying().(*types.Struct); isStruct {
+				for _, b := range callee.Blocks {
+					for _, in := range b.Instrs {
+						if st, ok := in.(*ssa.Store); ok {
+							if fa, ok := st.Addr.(*ssa.FieldAddr); ok {
+								classify(fa.Field, st.Val)
+							}
+						}
+					}
+				}
+			}
+		}
+		return si
+	}
+	// part(v) = (which snapshot parameter, role) when v is a component of splitter(<param>)
+	part := func(v ssa.Value) (string, string) {
+		var call *ssa.Call
+		idx := -1
+		switch x := v.(type) {
+		case *ssa.Extract:
+			if cl, ok := x.Tuple.(*ssa.Call); ok {
+				call, idx = cl, x.Index
+			}
+		default:
+			if _, _, base, ok := fieldLoad(v); ok {
+				fieldIdx := -1
+				switch y := v.(type) {
+				case *ssa.Field:
+					fieldIdx = y.Field
+				case *ssa.UnOp:
+					if fa, ok := y.X.(*ssa.FieldAddr); ok {
+						fieldIdx = fa.Field
+					}
+				}
+				for _, l := range append(c.Origins(rootValueDeep(base), 0), rootValueDeep(base)) {
+					if cl, ok := l.(*ssa.Call); ok {
+						call, idx = cl, fieldIdx
+					}
+				}
+			}
+		}
+		if call == nil || len(call.Call.Args) != 1 {
+			return "", ""
 		}
 		callee := call.Call.StaticCallee()
-		if callee == nil || callee.Pkg != fn.Pkg || callee.Signature.Results().Len() != 3 {
-			return "", -1
+		if callee == nil || callee.Pkg != fn.Pkg || len(callee.Blocks) == 0 {
+			return "", ""
 		}
 		p, ok := call.Call.Args[0].(*ssa.Parameter)
 		if !ok {
-			return "", -1
+			return "", ""
 		}
-		return fmt.Sprint(paramIndex(p)), ex.Index
+		si := analyse(callee)
+		return fmt.Sprint(paramIndex(p)), si.role[idx]
 	}
 	have := map[string]bool{}
 	for _, e := range findCalls(fn, nameIs("bytes.Equal", "crypto/subtle.ConstantTimeCompare", "crypto/hmac.Equal")) {
 		a, b := e.Call.Args[0], e.Call.Args[1]
-		pa, ia := part(a)
-		pb, ib := part(b)
+		pa, ra := part(a)
+		pb, rb := part(b)
 		if !guardsAll(e) {
 			continue
 		}
 		switch {
-		case pa != "" && pb != "" && pa != pb && ia == ib && (ia == 0 || ia == 1):
-			have[fmt.Sprintf("part%d", ia)] = true
-		case (ia == 2 && pa != "" && isParamIdx(b, 2)) || (ib == 2 && pb != "" && isParamIdx(a, 2)):
+		case pa != "" && pb != "" && pa != pb && ra == rb && (ra == "before" || ra == "after"):
+			have[ra] = true
+		case (ra == "cookie" && pa != "" && isParamIdx(b, 2)) || (rb == "cookie" && pb != "" && isParamIdx(a, 2)):
 			have["cookie"] = true
 		}
 	}
-	r.Check(have["part0"], rule, short(fn)+":before-cookie", c.pos(fn.Pos()), "bytes before the cookie compared as bytes; success only if equal", "the second ClientHello is accepted without a byte comparison of the part before the cookie with the first ClientHello")
-	r.Check(have["part1"], rule, short(fn)+":after-cookie", c.pos(fn.Pos()), "bytes after the cookie compared as bytes; success only if equal", "the second ClientHello is accepted without a byte comparison of the part after the cookie (cipher suites, compression methods, extensions) with the first ClientHello: an on-path attacker can alter the first ClientHello, which the server has already acted on and which no Finished covers")
+	r.Check(have["before"], rule, short(fn)+":before-cookie", c.pos(fn.Pos()), "bytes before the cookie compared as bytes; success only if equal", "the second ClientHello is accepted without a byte comparison of the part before the cookie with the first ClientHello")
+	r.Check(have["after"], rule, short(fn)+":after-cookie", c.pos(fn.Pos()), "bytes after the cookie compared as bytes; success only if equal", "the second ClientHello is accepted without a byte comparison of the part after the cookie (cipher suites, compression methods, extensions) with the first ClientHello: an on-path attacker can alter the first ClientHello, which the server has already acted on and which no Finished covers")
 	r.Check(have["cookie"], rule, short(fn)+":cookie", c.pos(fn.Pos()), "echoed cookie compared with the issued cookie", "the echoed cookie is not compared with the cookie the server issued")
-	// the splitter cuts the snapshot body only: before = body[:k], after = body[k':], both of the same snapshot
-	for _, call := range findCalls(fn, func(n string) bool { return strings.HasPrefix(n, "internal/negotiation.") }) {
-		callee := call.Call.StaticCallee()
-		if callee == nil || callee.Signature.Results().Len() != 3 || len(callee.Params) != 1 {
+	var names []*ssa.Function
+	for f := range splitters {
+		names = append(names, f)
+	}
+	sort.Slice(names, func(i, j int) bool { return short(names[i]) < short(names[j]) })
+	for _, callee := range names {
+		si := splitters[callee]
+		if len(si.role) < 3 {
 			continue
 		}
-		okCut := true
-		for _, b := range callee.Blocks {
-			ret, isRet := b.Instrs[len(b.Instrs)-1].(*ssa.Return)
-			if !isRet {
-				continue
-			}
-			for i := 0; i < 3; i++ {
-				v := unspill(ret.Results[i])
-				if isNilConst(v) {
-					continue
-				}
-				if !allLeaves(c.Origins(v, 0), func(l ssa.Value) bool {
-					for {
-						sl, isSl := l.(*ssa.Slice)
-						if !isSl {
-							break
-						}
-						l = sl.X
-					}
-					return isFieldLoad(l, "internal/negotiation.ClientHelloSnapshot", "body")
-				}) {
-					okCut = false
-				}
-			}
-		}
-		r.Check(okCut, rule, short(callee), c.pos(callee.Pos()), "the three parts are slices of the snapshot's raw body", "the compared parts are not slices of the raw ClientHello body")
-		// the part behind the cookie reaches to the end of the hello: the DTLS 1.2 server negotiates
-		// from the first ClientHello (extended master secret, ALPN, server name, groups, signature
-		// algorithms, versions) while only the second is covered by the Finished messages, so an
-		// extension of the first that is not compared with the second is covered by nothing
-		toEnd := false
-		for _, b := range callee.Blocks {
-			ret, isRet := b.Instrs[len(b.Instrs)-1].(*ssa.Return)
-			if !isRet || len(ret.Results) != 3 {
-				continue
-			}
-			if sl, isSl := unspill(ret.Results[1]).(*ssa.Slice); isSl && sl.High == nil {
-				toEnd = true
-			}
-		}
+		r.Check(si.okCut, rule, short(callee), c.pos(callee.Pos()), "the three parts are slices of the snapshot's raw body", "the compared parts are not slices of the raw ClientHello body")
 		// ... or every parameter the first-hello parser takes from extensions is derived again
 		// from the second ClientHello, after it was validated: what the first one said then
 		// steers nothing
-		rederived, missing := c.secondHelloRederives()
-		if !toEnd && rederived {
+		rederived, _ := c.secondHelloRederives()
+		if !si.toEnd && rederived {
 			r.OK(rule, short(callee)+":tail-covers-extensions", c.pos(callee.Pos()), "the extensions are not compared, but every extension-borne parameter is derived again from the validated second ClientHello")
 			break
 		}
-		_ = missing
-		r.Check(toEnd, rule, short(callee)+":tail-covers-extensions", c.pos(callee.Pos()), "the compared part behind the cookie runs to the end of the ClientHello", "the part of the ClientHello compared behind the cookie stops in front of the extensions: the extensions of the first ClientHello - from which the DTLS 1.2 server negotiates extended master secret, ALPN, server name, groups, signature algorithms and the protocol version - are neither compared with the second ClientHello nor covered by any Finished, so an on-path attacker who rewrites only the first ClientHello steers those parameters and both sides complete")
+		r.Check(si.toEnd, rule, short(callee)+":tail-covers-extensions", c.pos(callee.Pos()), "the compared part behind the cookie runs to the end of the ClientHello", "the part of the ClientHello compared behind the cookie stops in front of the extensions: the extensions of the first ClientHello - from which the DTLS 1.2 server negotiates extended master secret, ALPN, server name, groups, signature algorithms and the protocol version - are neither compared with the second ClientHello nor covered by any Finished, so an on-path attacker who rewrites only the first ClientHello steers those parameters and both sides complete")
 		break
 	}
 }
@@ -1011,7 +1145,7 @@ func (c *Ctx) secondHelloRederives() (bool, []string) {
 	var after []*ssa.Function
 	for _, b := range f2.Blocks {
 		for _, in := range b.Instrs {
-			if cl, ok := in.(*ssa.Call); ok && cl != validate && instrReaches(validate, cl) && instrDominates(validate, cl) {
+			if cl, ok := in.(*ssa.Call); ok && cl != validate && instrReaches(validate, cl) && mustPass(validate, cl) {
 				if callee := cl.Call.StaticCallee(); callee != nil {
 					after = append(after, callee)
 				}
@@ -1022,7 +1156,7 @@ func (c *Ctx) secondHelloRederives() (bool, []string) {
 	// stores made by the second-hello parser itself behind the validation
 	for _, b := range f2.Blocks {
 		for _, in := range b.Instrs {
-			if st, ok := in.(*ssa.Store); ok && instrDominates(validate, st) {
+			if st, ok := in.(*ssa.Store); ok && mustPass(validate, st) {
 				if _, f, _, ok := fieldOfAddr(st.Addr); ok {
 					second[f] = true
 				}
